@@ -16,7 +16,7 @@ use curve25519_dalek::traits::{Identity, IsIdentity};
 use curve25519_dalek::verif::{edwards_coords, edwards_from_coords, Fe};
 use rayon::prelude::*;
 use serde_json::json;
-use stateright::{Checker, Model, Property};
+use stateright::{Model, Property};
 use std::sync::atomic::Ordering;
 use subtle::ConstantTimeEq;
 
@@ -465,14 +465,7 @@ pub fn run(ctx: &Ctx) {
     ctx.bound("machine_pool", json!(mpool.len()));
     ctx.bound("machine_inits", json!(inits.len()));
     let m = Machine { sp: spec(), inits, pool: mpool, max_depth: depth, ctx: ctx as *const Ctx as usize };
-    let checker = m.checker().threads(rayon::current_num_threads()).spawn_bfs().join();
-    ctx.states.fetch_add(checker.unique_state_count() as u64, Ordering::Relaxed);
-    ctx.nontriv(checker.unique_state_count() as u64);
-    ctx.count("machine_generated_states", checker.state_count() as u64);
-    if let Some(path) = checker.discovery("on curve, group law") {
-        let last = path.last_state().clone();
-        let acts: Vec<String> = path.into_actions().iter().map(|a| format!("{:?}", a)).collect();
-        ctx.violation("ed.machine", last.bad.as_deref().unwrap_or("?"), json!({"kind": "machine", "actions": acts, "coords": last.c.to_vec()}));
-    }
+    let o = crate::bfs::explore(&m, depth as usize, |s| s.bad.clone(), 8);
+    crate::bfs::finish(ctx, "ed.machine", &o, depth as usize);
     ctx.sample_tag("machine", json!({"depth": depth, "note": "BFS over raw (X,Y,Z,T) representations; each transition = one real group operation checked against the affine law, curve equation, compress and predicates"}));
 }
